@@ -1,3 +1,4 @@
+mod alloc_track;
 mod engine;
 mod filler;
 mod fixtures;
@@ -5,6 +6,9 @@ mod props;
 include!(concat!(env!("OUT_DIR"), "/service_fillers.rs"));
 
 use engine::*;
+
+#[global_allocator]
+static ALLOC: alloc_track::Counting = alloc_track::Counting;
 use std::os::unix::process::ExitStatusExt;
 use std::process::Command;
 use std::time::{Duration, Instant};
@@ -25,6 +29,10 @@ fn main() {
     }
     if args[0] == "--worker" {
         worker(&args[1..]);
+    }
+    if args[0] == "--make-fixtures" {
+        fixtures::make_fixtures();
+        return;
     }
     if args[0] == "--list" {
         for p in props::all() {
